@@ -392,6 +392,87 @@ def mgr_session(kind, scenario, payload):
     return dict(steps=steps, timeout=4000)
 
 
+def mgr_sequence(kind, first, second, payload):
+    """two requests of the same kind through one manager object: what the first one leaves behind (an error, a result, a lost session,
+    a still outstanding twin) must not keep the second from completing"""
+    managers, to, ns = MGR_KINDS[kind]
+    steps = [wire.client(managers=managers)] + wire.login_sasl(sm=False) + [dict(op="wait_signal", name="connected")]
+    real_from = to if to else None
+    fa = "" if real_from is None else " from='%s'" % real_from
+    err = "<error type='cancel'><item-not-found xmlns='urn:ietf:params:xml:ns:xmpp-stanzas'/></error>"
+
+    def call(rid):
+        st = dict(op="mgr", kind=kind, rid=rid)
+        if to:
+            st["to"] = to
+        return st
+
+    def answer(typ):
+        # (the reply comes from wherever this request really went: multi-step managers talk to the own account first, then to the service)
+        return wire.S("<iq type='%s' id='$ID'$FROMATTR>%s</iq>" % (typ, payload if typ == "result" else err), optional=True)
+    steps.append(dict(op="mark", name="first"))
+    steps.append(call("m1"))
+    if first == "concurrent":
+        # both outstanding at once; every request the client really sends is answered
+        steps.append(call("m2"))
+        steps += [wire.A("iq", optional=True, timeout=800), answer(second), wire.A("iq", optional=True, timeout=300), answer(second), dict(op="fence")]
+    else:
+        steps.append(wire.A("iq", optional=True, timeout=1500))
+        if first in ("result", "error"):
+            steps += [answer(first), dict(op="fence")]
+        elif first == "lost-session":
+            # silence, then the session ends and a new one is opened with the same client object
+            steps += [dict(op="fence"), dict(op="disconnect"), dict(op="wait_signal", name="disconnected")]
+            steps += [s_ for s_ in wire.login_sasl(sm=False, sid="s2")] + [dict(op="wait_signal", name="connected")]
+        steps.append(dict(op="mark", name="second"))
+        steps.append(call("m2"))
+        steps += [wire.A("iq", optional=True, timeout=800), answer(second), dict(op="fence")]
+    steps.append(dict(op="mark", name="closing"))
+    steps += [dict(op="disconnect"), dict(op="wait_signal", name="disconnected"), dict(op="settle", quiet=10)]
+    return dict(steps=steps, timeout=5000)
+
+
+def mgr_seq_worker(args):
+    wid, jobs = args
+    binary = vf.build_harness("wire")
+    outs, crashes = wire.run_cases(binary, [mgr_sequence(*j) for j in jobs])
+    viol, stats, inconc = [], collections.Counter(), []
+    for rq, info in crashes:
+        j = jobs[rq["n"]] if rq.get("n") is not None else ("?", "?", "?", "")
+        viol.append(("manager crash %s %s" % (j[0], vf.crash_sig(info)), "sanitizer report / abnormal exit in a sequence of two manager requests", {"kind": j[0], "first": j[1], "second": j[2], "stderr": info["stderr"][-3000:]}))
+    for out, (kind, first, second, payload) in zip(outs, jobs):
+        if not out:
+            continue
+        j = out["journal"]
+        calls = [e for e in j if e["ev"] == "mgr_call"]
+        if len(calls) < 2 or any(e["ev"] == "bad_step" for e in j) or out["stalled"] >= 0:
+            inconc.append("manager sequence %s/%s was not played to the end: %s" % (kind, first, [e for e in j if e["ev"] in ("bad_step", "await_failed")][:2]))
+            continue
+        stats["manager_sequences"] += 1
+        seg, dones = "start", collections.defaultdict(list)
+        for e in j:
+            if e["ev"] == "mark":
+                seg = e["name"]
+            elif e["ev"] == "mgr_done":
+                dones[e["rid"]].append((seg, e))
+        w = {"kind": kind, "first_request": first, "second_answered_with": second, "payload": payload[:800],
+             "completions": {rid: [(s_, {k: e.get(k) for k in ("count", "outcome", "text")}) for s_, e in d] for rid, d in dones.items()},
+             "client_sent": [e.get("xml", "")[:300] for e in wire.srv_rx(j) if e["tag"] == "iq"][:8]}
+        for rid in ("m1", "m2"):
+            d = dones.get(rid, [])
+            if not d:
+                viol.append(("manager never-completed %s %s-of-two after-%s" % (kind, "first" if rid == "m1" else "second", first), "a manager request was still pending after the client disconnected for good", w))
+            elif len(d) > 1 or d[0][1]["count"] != 1:
+                viol.append(("manager completed-%d-times %s" % (len(d), kind), "the task of a manager request finished more than once", w))
+            elif rid == "m2" and d[0][0] == "closing":
+                # the second request was answered (or needed no answer) before the session was closed: it must not wait for the disconnect
+                sent = [e for e in wire.srv_rx(j) if e["tag"] == "iq" and e.get("type") in ("get", "set")]
+                viol.append(("manager second-request-stuck %s after-%s" % (kind, first), "the second of two requests through the same manager completed only when the client disconnected (requests on the wire: %d)" % len(sent), w))
+            else:
+                stats["manager_sequence_requests_ok"] += 1
+    return viol, dict(stats), inconc
+
+
 def mgr_worker(args):
     wid, jobs = args
     binary = vf.build_harness("wire")
@@ -486,6 +567,21 @@ def manager_part(V, tier):
     with ProcessPoolExecutor(max_workers=W) as pool:
         res = list(pool.map(mgr_worker, [(w, jobs[w::W]) for w in range(W)]))
     stats = collections.Counter()
+    for viol, st, inconc in res:
+        for sig, what, w in viol:
+            V.violation(sig, what, w)
+        for i in inconc:
+            V.inconc(i)
+        stats.update(st)
+    # sequences of two requests through the same manager object
+    sj = []
+    for kind, (_, to, ns) in MGR_KINDS.items():
+        cands = pay.get(ns, []) or [""]
+        for first in ("result", "error", "lost-session", "concurrent"):
+            for second in (("result", "error") if tier != "quick" or first == "error" else ("result",)):
+                sj.append((kind, first, second, r.choice(cands)))
+    with ProcessPoolExecutor(max_workers=W) as pool:
+        res = list(pool.map(mgr_seq_worker, [(w, sj[w::W]) for w in range(W)]))
     for viol, st, inconc in res:
         for sig, what, w in viol:
             V.violation(sig, what, w)
